@@ -102,7 +102,7 @@ func (t *runner) mixedTUMap(csr charcode.CodeSpaceRange) map[charcode.Code]strin
 		last := baseRunes[r.IntN(len(baseRunes))]
 		prefix := ""
 		if r.IntN(3) == 0 {
-			prefix = string(baseRunes[r.IntN(len(baseRunes))])
+			prefix = string(t.textRune())
 		}
 		for _, c := range t.numericRun(csr) {
 			x := last
